@@ -275,7 +275,7 @@ func compareEdges(a0, a1, b0, b1 Point) bool {
 	if b0.Cmp(b1.Vector) != -1 {
 		b0, b1 = b1, b0
 	}
-	return a0.Cmp(b0.Vector) == -1 || (a0 == b0 && b0.Cmp(b1.Vector) == -1)
+	return a0.Cmp(b0.Vector) == -1 || (a0 == b0 && a1.Cmp(b1.Vector) == -1)
 }
 
 // intersectionStable returns the intersection point of the edges (a0,a1) and
